@@ -357,6 +357,9 @@ func (ba *BA) lin0(v ssa.Value) Lin {
 				return ba.atom("v:"+x.Name(), true)
 			}
 			if k, ok := ba.stableFieldKey(x); ok {
+				if _, isG := x.X.(*ssa.Global); isG {
+					return ba.atom("G:"+k, isUnsigned(x.Type()))
+				}
 				return ba.atom("fld:"+k, isUnsigned(x.Type()))
 			}
 			return ba.atom("v:"+x.Name(), isUnsigned(x.Type()))
@@ -874,6 +877,16 @@ func unquote(s string) (string, error) {
 // stableFieldKey: a structural name for the value loaded from a field address that no instruction of the
 // function stores to, so that two loads of the same field are one atom.
 func (ba *BA) stableFieldKey(load *ssa.UnOp) (string, bool) {
+	if g, ok := load.X.(*ssa.Global); ok {
+		for _, b := range ba.fn.Blocks {
+			for _, in := range b.Instrs {
+				if s, ok := in.(*ssa.Store); ok && s.Addr == ssa.Value(g) {
+					return "", false
+				}
+			}
+		}
+		return g.Name(), true
+	}
 	names := pathNames(load.X)
 	if len(names) == 0 {
 		return "", false
@@ -896,4 +909,130 @@ func (ba *BA) stableFieldKey(load *ssa.UnOp) (string, bool) {
 		}
 	}
 	return rn + "." + strings.Join(names, "."), true
+}
+
+// upper: a symbolic upper bound of l at block b (a linear form over stable atoms: package-level variables "G:*"),
+// derived from guard facts `X - a - k >= 0` and phi edges. Facts mentioning the atom `skip` (the length under
+// scrutiny) are ignored, except when bounding `skip` itself on a phi edge (min idiom: size = len when len <= K).
+func (ba *BA) upper(l Lin, b *ssa.BasicBlock, skip string, depth int) (Lin, bool) {
+	if depth > 6 {
+		return Lin{}, false
+	}
+	total := linConst(l.C)
+	for a, k := range l.T {
+		if strings.HasPrefix(a, "G:") {
+			total = total.add(linAtom(a), k)
+			continue
+		}
+		if k < 0 {
+			if ba.nonneg[a] {
+				continue
+			}
+			return Lin{}, false
+		}
+		ub, ok := ba.upperAtom(a, b, nil, skip, depth)
+		if !ok {
+			return Lin{}, false
+		}
+		total = total.add(ub, k)
+	}
+	return total, true
+}
+
+// linMax: the larger of two symbolic bounds when comparable.
+func (ba *BA) linMax(x, y Lin) (Lin, bool) {
+	if x.equal(y) {
+		return x, true
+	}
+	if ba.trivial(x.add(y, -1)) {
+		return x, true
+	}
+	if ba.trivial(y.add(x, -1)) {
+		return y, true
+	}
+	return Lin{}, false
+}
+
+func (ba *BA) upperAtom(a string, b *ssa.BasicBlock, extra []Lin, skip string, depth int) (Lin, bool) {
+	if depth > 6 {
+		return Lin{}, false
+	}
+	var facts []Lin
+	if b != nil {
+		facts = append(facts, ba.factsAt(b)...)
+	}
+	facts = append(facts, extra...)
+	for _, f := range facts {
+		if f.T[a] != -1 {
+			continue
+		}
+		if a != skip {
+			if _, has := f.T[skip]; has {
+				continue
+			}
+		}
+		rest := f.add(linAtom(a), 1)
+		if _, has := rest.T[a]; has {
+			continue
+		}
+		if v, ok := ba.upper(rest, b, skip, depth+1); ok {
+			return v, true
+		}
+	}
+	if phi := ba.phiOf[a]; phi != nil {
+		var mx Lin
+		n := 0
+		for i, e := range phi.Edges {
+			el := ba.lin(e)
+			if _, self := el.T[a]; self {
+				continue // loop-carried edge: bounded by the loop guard facts
+			}
+			pred := phi.Block().Preds[i]
+			var ef []Lin
+			if ifi, ok := pred.Instrs[len(pred.Instrs)-1].(*ssa.If); ok && pred.Succs[0] != pred.Succs[1] {
+				for _, g := range normGuard(Guard{Cond: ifi.Cond, True: pred.Succs[0] == phi.Block(), If: ifi}) {
+					ef = append(ef, ba.guardFacts(g)...)
+				}
+			}
+			total := linConst(el.C)
+			ok := true
+			for ea, k := range el.T {
+				if strings.HasPrefix(ea, "G:") {
+					total = total.add(linAtom(ea), k)
+					continue
+				}
+				if k < 0 {
+					if ba.nonneg[ea] {
+						continue
+					}
+					ok = false
+					break
+				}
+				// on this edge the length itself may be bounded (min idiom)
+				v, ok2 := ba.upperAtom(ea, pred, ef, "", depth+1)
+				if !ok2 {
+					ok = false
+					break
+				}
+				total = total.add(v, k)
+			}
+			if !ok {
+				return Lin{}, false
+			}
+			if n == 0 {
+				mx = total
+			} else {
+				m, ok := ba.linMax(mx, total)
+				if !ok {
+					return Lin{}, false
+				}
+				mx = m
+			}
+			n++
+		}
+		if n > 0 {
+			return mx, true
+		}
+	}
+	return Lin{}, false
 }
